@@ -86,6 +86,27 @@ def build_props(prop_id, groups=None, timeout=900):
                 out['failed_obligation'] = f"coqc failed at {where}: " + " | ".join(l.strip() for l in err if l.strip())[:600]
             out['wall_s'] = time.time() - t0
             return out
+    # hygiene: nothing in the development may be assumed, admitted or exempted from the kernel's checks
+    forbidden = re.compile(r'\bAdmitted\b|\badmit\b|^\s*(Axiom|Axioms|Parameter|Parameters|Conjecture|Hypothesis|Variable)\b(?![^.]*Section)|'
+                           r'Admit Obligations|Unset Guard Checking|Unset Positivity Checking|Unset Universe Checking|bypass_check|'
+                           r'type-in-type|impredicative-set', re.M)
+    for d in ('Lib', 'Gen', 'Spec', 'Model', 'Proofs', 'Props'):
+        for f in sorted(os.listdir(os.path.join(COQ, d))):
+            if not f.endswith('.v'):
+                continue
+            txt = open(os.path.join(COQ, d, f)).read()
+            txt = re.sub(r'\(\*.*?\*\)', '', txt, flags=re.S)       # comments may talk about axioms
+            in_section = 0
+            for line in txt.splitlines():
+                if re.match(r'\s*Section\b', line):
+                    in_section += 1
+                elif re.match(r'\s*End\b', line) and in_section:
+                    in_section -= 1
+                m = forbidden.search(line)
+                if m and not (in_section and re.match(r'\s*(Variable|Variables|Hypothesis|Hypotheses)\b', line)):
+                    out['failed_obligation'] = f"forbidden construct in coq/{d}/{f}: {line.strip()[:120]}"
+    if out['failed_obligation'] is None:
+        out['hygiene'] = 'no Admitted / admit / Axiom / Parameter / Conjecture / unchecked-kernel switch in Lib, Gen, Spec, Model, Proofs, Props'
     # parse theorem names and their Print Assumptions output from the property file's compile log
     src = open(os.path.join(COQ, f'Props/{prop_id}.v')).read()
     thms = re.findall(r'^(?:Theorem|Lemma|Definition)\s+(C\d\d\w+)', src, re.M)
